@@ -395,3 +395,29 @@ package objecttree
 //@ func (*Tree).AddFast
 //@   trusted
 //@   ensures len(result) == 0 || fresh(result)
+
+// ---------------------------------------------------------------------------------------------
+// C10: the remote add path.  After addChangesToTree succeeded the in-memory tree is ahead of storage
+// until storage.AddAll succeeds; every error return in between rebuilds the tree from storage.  Both
+// flushers of this package never fail in FlushAfterBuild (proved); for other implementations of the
+// interface that is assumed.
+//@ func (*objectTree).addChangesToTree
+//@   sets memAhead = memAhead || result1 == nil
+//@ func iface objecttree.Flusher.FlushAfterBuild
+//@   ensures [never_fails] result == nil
+//@ func iface objecttree.Flusher.Flush
+//@ func iface objecttree.Storage.AddAll
+//@   sets memAhead = memAhead && result != nil
+//@ func (*defaultFlusher).FlushAfterBuild
+//@   requires t != nil
+//@   assumes t.tree != nil
+//@   ensures [never_fails] result == nil
+//@ func (*newChangeFlusher).FlushAfterBuild
+//@   ensures [never_fails] result == nil
+//@ func (*Tree).reduceTree
+//@   trusted
+//@ func (*objectTree).AddRawChangesWithUpdater
+//@   callback updater modifies nothing
+//@   requires ot != nil && ot.tree != nil && ot.flusher != nil && ot.storage != nil && umVerifyAll
+//@   requires !memAhead && !rebuilt
+//@   ensures [error_never_leaves_memory_ahead] err != nil ==> rebuilt || !memAhead
